@@ -96,6 +96,32 @@ structure SizeEntry where
   site : SizeSite
   proof : Proved site.safe
 
+/-- one `for` statement (range loops aside): candidate measures read off its exit conditions, each with the numbers of the
+    obligations (entries of `Gen.Loop.loopEntries`) of its back edges: "under the facts of this path of ONE iteration,
+    measure' < measure and 0 ≤ measure" -/
+structure LoopSite where
+  file : String
+  fn : String
+  /-- the header as source text -/
+  header : String
+  /-- number of back edges (end of the body, every `continue`); 0 = the body always leaves the loop -/
+  edges : Nat
+  cands : List (String × List Nat)
+deriving Repr, Inhabited
+
+/-- a measure is good when every one of its back-edge obligations holds for ALL valuations -/
+def LoopSite.candidateGood (entries : List SizeEntry) (c : String × List Nat) : Prop :=
+  ∀ i ∈ c.2, ∃ e, entries[i]? = some e ∧ e.site.safe
+
+/-- the loop has a measure that is non-negative at the start of every iteration and decreases along every back edge — so no
+    execution goes through the loop head infinitely often; a loop without a back edge needs none -/
+def LoopSite.terminates (entries : List SizeEntry) (l : LoopSite) : Prop :=
+  l.edges = 0 ∨ ∃ c ∈ l.cands, LoopSite.candidateGood entries c
+
+/-- the same, decided from what the tactic recorded -/
+def LoopSite.proved (entries : List SizeEntry) (l : LoopSite) : Bool :=
+  l.edges == 0 || l.cands.any (fun c => c.2.all (fun i => match entries[i]? with | some e => e.proof.isYes | none => false))
+
 /-- `size_decide s`: unfold the site `s` and the evaluator down to linear integer arithmetic over the atoms `ρ i`, then `omega`
     (a decision procedure: the proof it builds is checked by the kernel and holds for ALL valuations); when that fails the
     obligation is recorded as not proved — never as proved. -/
